@@ -43,6 +43,22 @@ impl Task {
 pub open spec fn sib_set(h: Heap, t: Tid) -> Set<Tid> {
     if parent_tid(t) is Some { children_of(h, parent_tid(t)->Some_0).remove(t) } else { Set::empty() }
 }
+// the sibling set depends on the prev links only
+pub open spec fn same_links(a: Heap, b: Heap) -> bool {
+    (forall|c: Tid| a.has(c) <==> b.has(c)) && (forall|c: Tid| a.has(c) ==> #[trigger] a.tasks[c].prev == b.tasks[c].prev)
+}
+pub proof fn lemma_sibs_stable(a: Heap, b: Heap, t: Tid)
+    requires same_links(a, b)
+    ensures sib_set(a, t) == sib_set(b, t)
+{
+    if parent_tid(t) is Some {
+        let p = parent_tid(t)->Some_0;
+        assert forall|c: Tid| children_of(a, p).contains(c) <==> children_of(b, p).contains(c) by {
+            if a.has(c) { assert(a.tasks[c].prev == b.tasks[c].prev); }
+        }
+        assert(children_of(a, p) =~= children_of(b, p));
+    }
+}
 pub proof fn lemma_seq_set(v: Seq<Arc<Task>>, s: Set<Tid>)
     requires tids(v).to_set() == s
     ensures forall|t: Tid| #[trigger] s.contains(t) <==> exists|j: int| 0 <= j < v.len() && (#[trigger] v[j]).id@ == t
@@ -91,6 +107,8 @@ impl Task {
             //# D2-ready-frame
             final(h).wf() && fwd(*old(h), *final(h)) && final(h).cur == old(h).cur && (ret ==> *final(h) == *old(h))
                 && forall|t: Tid| t != self.id@ && #[trigger] old(h).has(t) ==> final(h).tasks[t] == old(h).tasks[t],
+            //# D2-ready-writes-at-most-skipped-on-itself
+            *final(h) == *old(h) || *final(h) == set_state_spec(*old(h), self.id@, TaskState::Skipped),
             //# D2-non-branch-always-ready
             !(self.node.content is Branch) ==> ret && *final(h) == *old(h),
             //# D2-needs-branch-ready-iff-a-needed-sibling-finished
@@ -101,6 +119,12 @@ impl Task {
                 ==> (ret <==> forall|t: Tid| #[trigger] sib_set(*old(h), self.id@).contains(t) ==> old(h).st(t) is Skipped),
             //# D2-plain-branch-not-ready
             self.node.content is Branch && self.node.content->Branch_0.needs@.len() == 0 && !self.node.content->Branch_0.r#else ==> !ret && *final(h) == *old(h),
+            //# D2-else-branch-gives-way-once-a-sibling-ran [C04,C01]
+            self.node.content is Branch && self.node.content->Branch_0.needs@.len() == 0 && self.node.content->Branch_0.r#else
+                && (exists|t: Tid| #[trigger] sib_set(*old(h), self.id@).contains(t) && st_ran(old(h).st(t))) ==> !ret && final(h).st(self.id@) is Skipped,
+            //# D2-else-branch-keeps-waiting-otherwise [C04]
+            self.node.content is Branch && self.node.content->Branch_0.needs@.len() == 0 && self.node.content->Branch_0.r#else
+                && !(exists|t: Tid| #[trigger] sib_set(*old(h), self.id@).contains(t) && st_ran(old(h).st(t))) ==> *final(h) == *old(h),
 //@@ proof after=siblings#1
                 proof {
                     if parent_tid(self.id@) is None { assert(tids(siblings@) =~= Seq::<Tid>::empty()); assert(tids(siblings@).to_set() =~= Set::<Tid>::empty()); }
@@ -118,7 +142,7 @@ impl Task {
 //@@ loop 3
         invariant
             //# any-closed-so-far
-            *h == *old(h) && tasks_ok(*h, __v3@),
+            *h == *old(h) && tasks_ok(*h, __v3@) && (__any <==> exists|j: int| 0 <= j < __i3 && st_ran(h.st((#[trigger] __v3@[j]).id@))),
 //@@ end
 }
 // Context::sched_task: one new task in state None on `node`, hanging off the current task, pushed to the queue
@@ -716,12 +740,25 @@ impl ActTask for Branch {
 //@@ opt traitpost
 //@@ proof at=start
         proof { lemma_flag_keys(); }
+//@@ proof before=is_ready#1
+            proof {
+                lemma_sibs_stable(*old(h), *h, old(h).cur);
+                assert forall|t: Tid| sib_set(*old(h), old(h).cur).contains(t) implies h.tasks[t] == old(h).tasks[t] by {}
+            }
+//@@ proof before=is_ready#2
+                    proof {
+                        lemma_sibs_stable(*old(h), *h, old(h).cur);
+                        assert forall|t: Tid| sib_set(*old(h), old(h).cur).contains(t) implies h.tasks[t] == old(h).tasks[t] by {}
+                    }
 //@@ spec
         ensures
             //# D1-branches-emit-no-message
             flag_is(final(h).tasks[old(h).cur], consts::TASK_EMIT_DISABLED@, false),
-            //# D1-needs-branch-waits
-            self.needs@.len() > 0 ==> ret is Ok && final(h).st(old(h).cur) is Pending,
+            //# D1-needs-branch-waits-or-starts
+            self.needs@.len() > 0 ==> ret is Ok && (final(h).st(old(h).cur) is Pending || final(h).st(old(h).cur) is Running),
+            //# D1-needs-branch-starts-only-after-a-needed-sibling-finished [C04]
+            self.needs@.len() > 0 && final(h).st(old(h).cur) is Running
+                ==> exists|t: Tid| #[trigger] sib_set(*old(h), old(h).cur).contains(t) && st_terminal(old(h).st(t)) && needs_has(self.needs@, old(h).tasks[t].node.id@),
             //# D1-false-condition-skips
             self.needs@.len() == 0 && self.r#if is Some && ret is Ok && eval_result::<bool>(self.r#if->Some_0@, emit_off(*old(h))) == Ok::<bool, ActError>(false)
                 ==> final(h).st(old(h).cur) is Skipped,
@@ -730,8 +767,24 @@ impl ActTask for Branch {
                 ==> final(h).st(old(h).cur) is Ready,
             //# D1-no-condition-no-else-skips
             self.needs@.len() == 0 && self.r#if is None && !self.r#else ==> ret is Ok && final(h).st(old(h).cur) is Skipped,
-            //# D1-else-branch-waits-unless-alone
-            self.needs@.len() == 0 && self.r#if is None && self.r#else ==> ret is Ok && (final(h).st(old(h).cur) is Pending || final(h).st(old(h).cur) is Ready),
+            //# O1-needs-branch-is-not-left-waiting-when-a-needed-sibling-already-finished [C01,C04]
+            self.needs@.len() > 0 && (exists|t: Tid| #[trigger] sib_set(*old(h), old(h).cur).contains(t) && st_terminal(old(h).st(t)) && needs_has(self.needs@, old(h).tasks[t].node.id@))
+                ==> !(final(h).st(old(h).cur) is Pending),
+            //# O1-else-branch-is-not-left-waiting-when-every-sibling-is-already-skipped [C01,C04]
+            self.needs@.len() == 0 && self.r#if is None && self.r#else && (forall|t: Tid| #[trigger] sib_set(*old(h), old(h).cur).contains(t) ==> old(h).st(t) is Skipped)
+                ==> !(final(h).st(old(h).cur) is Pending),
+            //# O1-else-branch-is-not-left-waiting-when-a-sibling-already-ran [C01,C04]
+            self.needs@.len() == 0 && self.r#if is None && self.r#else && (exists|t: Tid| #[trigger] sib_set(*old(h), old(h).cur).contains(t) && st_ran(old(h).st(t)))
+                ==> !(final(h).st(old(h).cur) is Pending),
+            //# D1-else-branch-waits-unless-decided
+            self.needs@.len() == 0 && self.r#if is None && self.r#else ==> ret is Ok && (final(h).st(old(h).cur) is Pending || final(h).st(old(h).cur) is Ready
+                || final(h).st(old(h).cur) is Running || final(h).st(old(h).cur) is Skipped),
+            //# D1-else-branch-runs-only-if-no-sibling-condition-held [C04]
+            self.needs@.len() == 0 && self.r#if is None && self.r#else && final(h).st(old(h).cur) is Running
+                ==> forall|t: Tid| #[trigger] sib_set(*old(h), old(h).cur).contains(t) ==> old(h).st(t) is Skipped,
+            //# D1-else-branch-skipped-only-if-a-sibling-ran [C04]
+            self.needs@.len() == 0 && self.r#if is None && self.r#else && final(h).st(old(h).cur) is Skipped
+                ==> exists|t: Tid| #[trigger] sib_set(*old(h), old(h).cur).contains(t) && st_ran(old(h).st(t)),
 //@@ end
 //@@ extract file=acts/src/scheduler/process/task/branch.rs in="impl ActTask for Branch" item="fn run" name=Branch::run props=C02,C04
 //@@ opt traitpost
